@@ -214,7 +214,13 @@ def parseExpect (s : String) : List (Nat × Bytes) :=
       | _ => none
   | _ => []
 
-def monitor (pid : String) (c a : List String) : String :=
+def monitor (pid : String) (c0 a : List String) : String :=
+  -- a `sched` case is judged like the conversation made of its segments
+  let c := match c0 with
+    | "sched" :: cfgS :: beS :: evS :: rest =>
+      let segs := (evS.splitOn ";").filterMap fun (e : String) => match e.splitOn ":" with | ["seg", h] => some h | _ => none
+      "conv" :: cfgS :: beS :: (String.intercalate "," segs ++ ";eof") :: rest
+    | _ => c0
   match c.take 4 with
   | [_, cfgS, beS, inS] =>
     let (cfg, tlsMode) := parseCfg cfgS
